@@ -1,6 +1,6 @@
 use super::{
     ComplexProps, ElementProps, ElementType, Namespace, Rc, RustFieldType, RustType, SimpleProps, WriteXml,
-    WriterError, WriterResult, io, xml_name_to_rust_name,
+    WriterError, WriterResult, as_string_literal_content, io, xml_name_to_rust_name,
 };
 use crate::model::{
     helpers::{write_check_restrictions_footer, write_check_restrictions_header},
@@ -107,7 +107,11 @@ where
 {
     writeln!(writer, "#[derive(Debug, Default, YaSerialize, YaDeserialize)]")?;
     if let Some(tns) = &target_namespace {
-        let namespaces = format!("\"{}\" = \"{}\"", tns.abbreviation, tns.namespace);
+        let namespaces = format!(
+            "\"{}\" = \"{}\"",
+            tns.abbreviation,
+            as_string_literal_content(&tns.namespace)
+        );
         writeln!(
             writer,
             "#[yaserde(prefix = \"{}\", namespaces = {{{}}}, rename = \"{}\")]",
@@ -178,7 +182,7 @@ where
         }
         let namespaces = declared
             .iter()
-            .map(|ns| format!("\"{}\" = \"{}\"", ns.abbreviation, ns.namespace))
+            .map(|ns| format!("\"{}\" = \"{}\"", ns.abbreviation, as_string_literal_content(&ns.namespace)))
             .collect::<Vec<String>>()
             .join(", ");
         writeln!(
